@@ -13,7 +13,7 @@ C14 (stateful; a `case` line starts a new history):
   run <name> mal=.. cfg=.. ev=<b|c<t>|X<t>|r>,…                              → labels=<round>:<hash>,…   (Model.Catchpoint.labels)
 rows `A addr ur rb enc`, `R a|p addr cidx ur enc`, `K key value`; keys `A addr`, `R addr cidx`, `K key`.
 Event translation: b = block; c<t> = commit t, then ticks until nothing is pending (+ trie housekeeping: evict, reload);
-X<t> = commit t, crash, ticks (recovery); r = crash with nothing pending, ticks.
+X<t> = commit t, crash, ticks (recovery); r / e = restart with tracking enabled, d = restart with tracking disabled.
 
 C16:
   case16 … split=<first|checked>                                             → ok
@@ -154,11 +154,12 @@ def ticks : List Ev := List.replicate 48 Ev.tick
 
 def parseEvent (t : String) : Option (List Ev) :=
   if t = "b" then some [.block]
-  else if t = "r" then some (Ev.crash :: ticks)
+  else if t = "r" ∨ t = "e" then some (Ev.crash true :: ticks)
+  else if t = "d" then some (Ev.crash false :: ticks)
   else if t.startsWith "c" then
     ((t.drop 1).toString.toNat?).map fun n => Ev.commit n :: ticks ++ [Ev.trie (.evict true), Ev.trie .reload]
   else if t.startsWith "X" then
-    ((t.drop 1).toString.toNat?).map fun n => Ev.commit n :: Ev.crash :: ticks
+    ((t.drop 1).toString.toNat?).map fun n => Ev.commit n :: Ev.crash true :: ticks
   else none
 
 def showLabels (out : List (Nat × String)) : String :=
